@@ -82,16 +82,18 @@ func outboundMappedKey(stg schema.StructRepresentation_Map, key string) string {
 	return mappedKey
 }
 
-func inboundMappedKey(typ *schema.TypeStruct, stg schema.StructRepresentation_Map, key string) string {
+// inboundMappedKey returns the name of the field that has the given representation key;
+// false if no field has it (in particular for the name of a field that is renamed).
+func inboundMappedKey(typ *schema.TypeStruct, stg schema.StructRepresentation_Map, key string) (string, bool) {
 	// TODO: can't do a "reverse" lookup... needs better API probably.
 	fields := typ.Fields()
 	for _, field := range fields {
 		mappedKey := stg.GetFieldKey(field)
 		if key == mappedKey {
-			return field.Name()
+			return field.Name(), true
 		}
 	}
-	return key // fallback to the same key
+	return "", false
 }
 
 func outboundMappedType(stg schema.UnionRepresentation_Keyed, key string) string {
@@ -135,7 +137,13 @@ func (w *_nodeRepr) LookupByString(key string) (datamodel.Node, error) {
 	}
 	switch stg := reprStrategy(w.schemaType).(type) {
 	case schema.StructRepresentation_Map:
-		revKey := inboundMappedKey(w.schemaType.(*schema.TypeStruct), stg, key)
+		revKey, ok := inboundMappedKey(w.schemaType.(*schema.TypeStruct), stg, key)
+		if !ok {
+			return nil, schema.ErrInvalidKey{
+				TypeName: w.schemaType.Name() + ".Repr",
+				Key:      basicnode.NewString(key),
+			}
+		}
 		v, err := (*_node)(w).LookupByString(revKey)
 		if err != nil {
 			return nil, err
@@ -991,7 +999,13 @@ func (w *_structAssemblerRepr) AssembleValue() datamodel.NodeAssembler {
 	switch stg := reprStrategy(w.schemaType).(type) {
 	case schema.StructRepresentation_Map:
 		key := w.curKey.val.String()
-		revKey := inboundMappedKey(w.schemaType, stg, key)
+		revKey, ok := inboundMappedKey(w.schemaType, stg, key)
+		if !ok {
+			return _errorAssembler{schema.ErrInvalidKey{
+				TypeName: w.schemaType.Name() + ".Repr",
+				Key:      basicnode.NewString(key),
+			}}
+		}
 		w.curKey.val.SetString(revKey)
 
 		valAsm := (*_structAssembler)(w).AssembleValue()
